@@ -271,6 +271,12 @@ func HarnessC19ClientIP() {
 	if routerHas {
 		opts = append(opts, fox.WithClientIPResolver(resolverA))
 	}
+	// the redirect handler is internal: a middleware in its scope asks for the client IP
+	opts = append(opts, fox.WithMiddlewareFor(fox.RedirectHandler, func(next fox.HandlerFunc) fox.HandlerFunc {
+		return func(c fox.Context) {
+			h(c)
+		}
+	}))
 	f, err := fox.New(opts...)
 	if err != nil {
 		panic(err)
@@ -289,9 +295,22 @@ func HarnessC19ClientIP() {
 	if _, err := f.Handle("GET", "/t/", h, ropts...); err != nil {
 		panic(err)
 	}
+	if _, err := f.Handle("GET", "/d/", h, append(append([]fox.RouteOption(nil), ropts[1:]...), fox.WithRedirectTrailingSlash(true))...); err != nil {
+		panic(err)
+	}
 	req := c20Request(kind)
+	if kind == 5 {
+		req = c20Request(hkRoute)
+		req.URL.Path = "/d" // answered by the internal redirect handler
+	}
+	// the recycled context has just served a route (with its own resolver when routeMode=1)
+	serveCapture(f, c20Request(hkRoute))
+	seen, seenErr = "", nil
 	serveCapture(f, req)
 	inRoute := kind == hkRoute || kind == hkRedirect // "/t" is served by "/t/" through the ignored trailing slash
+	if kind == 5 {
+		sym.Cover("ClientIP in the redirect handler")
+	}
 	want, wantErr := "", true
 	if inRoute {
 		switch {
